@@ -1320,6 +1320,13 @@ void *mode_new(bool enc, int type, const uint8_t key[16], const uint8_t iv[16])
   memcpy(h->key, key, 16);
   memset(h->iv, 0, sizeof h->iv);
   memcpy(h->iv, iv, 16);
+  {
+    // a caller that has made - and discarded - another stream object and its factory from the same key / IV buffers
+    // before: building and destroying them must leave the caller's buffers alone
+    AesFactory f0(h->key, h->iv);
+    Aesmode *t0 = f0.createCryMaster(enc, (u8_t)type);
+    delete t0;
+  }
   AesFactory f(h->key, h->iv);
   h->m = f.createCryMaster(enc, (u8_t)type);
   if (!h->m)
